@@ -7,7 +7,7 @@ from ..cfg import cfg_of
 from ..q import (find, match, const, try_const, only_via, tests, stmt_nodes, one, fmt, cfg_node_for, linear, calls)
 from ..core import key
 
-EXPLANATION = ('R5 effect rule: no write command is reachable in the resolved call graph from any _read_ndef_data (readers never remove in-progress marks).  ' +
+EXPLANATION = ('R6 effect rule: no write command is reachable in the resolved call graph from any _read_ndef_data (readers never remove in-progress marks).  ' +
     'Typestate over the CFG of every NDEF write routine.  Type 1/2: the length byte is zeroed and flushed before any data '
     'store, data and terminator are flushed before any length store, every length store is flushed before the function '
     'returns, and the commit byte (the first length byte) is flushed on its own after the extended length bytes are on the '
@@ -217,7 +217,7 @@ WRITE_PRIMITIVES = ('.write_byte', '.write_block', '.write', '.write_without_enc
 
 
 def rule_read_is_pure(report, prog):
-    """R5: reading never changes the tag.  The "in progress" marks an interrupted write leaves behind (zero length, WriteFlag, NLEN 0)
+    """R6: reading never changes the tag.  The "in progress" marks an interrupted write leaves behind (zero length, WriteFlag, NLEN 0)
     protect a later reader only as long as no reader removes them: no command that writes tag memory is reachable, in the resolved
     call graph, from the NDEF detection / read routines of any tag class."""
     from ..resolve import Resolver, Ctx
@@ -233,12 +233,12 @@ def rule_read_is_pure(report, prog):
         reach = closure(prog, res, f, Ctx(c))
         bad = sorted((q, chain) for q, (g, chain) in reach.items() if q.startswith('nfc.tag.') and q.endswith(WRITE_PRIMITIVES)
                      and '.Emulation' not in q and 'Emulation.' not in q)
-        report.check(not bad, 'C02-R5', key(c.qname, 'no tag write is reachable from the read routine'), f.loc(),
+        report.check(not bad, 'C02-R6', key(c.qname, 'no tag write is reachable from the read routine'), f.loc(),
                      '%s._read_ndef_data can reach the write command %s (via %s): a reader that modifies the tag can remove the mark an '
                      'interrupted write left and present the half-written area as a message' % (
                          c.qname, bad[0][0] if bad else '', ' -> '.join(bad[0][1][-3:]) if bad else ''),
                      detail='%d functions reachable' % len(reach))
-    report.floor('C02-R5', n, 4)
+    report.floor('C02-R6', n, 4)
 
 
 def run(report, prog, tier):
@@ -258,7 +258,7 @@ MUTANTS = [
                 attributes['writef'] = 0
                 self._write_attribute_data(attributes)
             if attributes['nbr'] == 0:
-                log.debug("number of blocks for read is zero")""", 'C02-R5'),
+                log.debug("number of blocks for read is zero")""", 'C02-R6'),
     ('tt2-reader-repairs-terminator', 'nfc.tag.tt2', """        def _read_ndef_data(self):
             log.debug("read ndef data")
             tag_memory = Type2TagMemoryReader(self.tag)
@@ -266,7 +266,7 @@ MUTANTS = [
             log.debug("read ndef data")
             tag_memory = Type2TagMemoryReader(self.tag)
             tag_memory.synchronize()
-""", 'C02-R5'),
+""", 'C02-R6'),
     ('tt2-no-first-flush', 'nfc.tag.tt2', """            tag_memory[offset+1] = 0
             tag_memory.synchronize()
 """, """            tag_memory[offset+1] = 0
@@ -300,11 +300,9 @@ MUTANTS = [
             self._write_attribute_data(attributes)
 """, """            attributes['writef'] = 0x0F
 """, 'C02-R4'),
-    ('tt3-ln-with-first-attribute', 'nfc.tag.tt3', """            attributes = self._read_attribute_data()
-            attributes['writef'] = 0x0F
+    ('tt3-ln-with-first-attribute', 'nfc.tag.tt3', """            attributes['writef'] = 0x0F
             self._write_attribute_data(attributes)
-""", """            attributes = self._read_attribute_data()
-            attributes['writef'] = 0x0F
+""", """            attributes['writef'] = 0x0F
             attributes['ln'] = len(data)
             self._write_attribute_data(attributes)
 """, 'C02-R4'),
